@@ -100,8 +100,8 @@ def harness(sym):
     cat = catalogue()
     nvar = sym.shard.get("lines", 1)
     first = [c for c in cat if c[0] == sym.shard["template"]]
-    second = [c for c in cat if c[4] in (None, "FT01", "Run Tim", "Zebra Quux", "Wait", "Rest")
-              and c[0] in ("Watch:N>1s", "Watch:N", "Simulate:N=5L/h", "Simulateoff:N", "Watch", "Cmd:5s", "Mark", "blank")]
+    second = [c for c in cat if c[4] in (None, "FT01", "Zebra Quux", "Wait", "Rest")
+              and c[0] in ("Watch:N>1s", "Simulate:N=5L/h", "Simulateoff:N", "Watch", "Cmd:5s", "Mark", "blank")]
     if "name" in sym.shard:
         first = first[sym.shard["name"]:sym.shard["name"] + 1]
     chosen = [first[sym.index("line1", len(first))]]
@@ -202,7 +202,7 @@ OBLIGATIONS = [Obligation(
     symbolic="line selectors over a catalogue of 26 templates x name slot (7 tag names / 7 command names: defined candidates, close misspellings, "
              "unrelated long name, two character name); membership bits: which of 3 candidate tags and 3 candidate commands are defined",
     bounds={"quick": "method = 'Mark: A' + 1 catalogue line; all 8 tag sets / 8 command sets (incl. empty)",
-            "thorough": "method = 'Mark: A' + 1 catalogue line + 1 line of a 17 line sub-catalogue (tag / command / incomplete / neutral lines); all 8 x 8 sets"},
+            "thorough": "method = 'Mark: A' + 1 catalogue line + 1 line of a 12 line sub-catalogue (tag / command / incomplete / neutral lines); all 8 x 8 sets"},
     assumptions=["all solver variables are discrete (selectors, membership bits): the solver enumerates and prunes, every path is one concrete configuration",
                  "Levenshtein.ratio, the parser's regular expressions and pint run for real on the concrete names of each path",
                  "analysis input built with lsp_analysis.build_tags/build_commands from a protocol UodDefinition; lint with fetch_uod_info replaced as in the repo's tests",
